@@ -599,6 +599,8 @@ pub fn apply_concrete(level: &PriceLevel, gen: &UuidGenerator, c: &Concrete, bud
 }
 
 pub struct Interp {
+    /// what each concrete call returned (parallel to `concrete`)
+    pub concrete_results: Vec<OpResult>,
     /// position of each resting id in `model`
     pub index: HashMap<IdKey, usize>,
     pub ghost_counter: u64,
@@ -663,6 +665,7 @@ fn listing_of(level: &PriceLevel) -> Vec<Order> {
 impl Interp {
     pub fn new(h: &History) -> Self {
         Interp {
+            concrete_results: Vec::new(),
             index: HashMap::new(),
             ghost_counter: 0,
             no_ts_bump: false,
@@ -1098,6 +1101,11 @@ impl Interp {
                         let h = level.add_order(order);
                         (h, level.update_order(OrderUpdate::Cancel { order_id: id }))
                     });
+                    self.concrete_results.push(OpResult::Added(id));
+                    self.concrete_results.push(match &r {
+                        Ok((_, u)) => OpResult::Updated(u.as_ref().map(|o| o.as_ref().map(|a| **a)).map_err(|e| e.to_string())),
+                        Err(_) => OpResult::Aborted,
+                    });
                     match r {
                         Ok((h, Ok(Some(back)))) if *back == order => {
                             if self.hold && self.held.len() < 4096 {
@@ -1278,11 +1286,13 @@ impl Interp {
         self.concrete.push(Concrete::Add(order));
         match catch(|| self.level.add_order(order)) {
             Ok(handle) => {
+                self.concrete_results.push(OpResult::Added(id));
                 if self.hold {
                     self.held.push(handle);
                 }
             }
             Err(m) => {
+                self.concrete_results.push(OpResult::Aborted);
                 self.violate(Oracle::Panic, format!("add_order panicked: {m}"));
                 self.dead = true;
                 return OpResult::Aborted;
@@ -1388,14 +1398,23 @@ impl Interp {
                         format!("match_order({}) did not return within {} shared-memory steps ({} resting orders, about {} visits needed)", s, b, n, rounds),
                     );
                     self.dead = true;
+                    self.concrete_results.push(OpResult::Aborted);
                     return OpResult::Aborted;
                 }
                 Err(StepAbort::Panic(m)) => {
                     self.violate(Oracle::Panic, format!("match_order({}) panicked: {m}", s));
                     self.dead = true;
+                    self.concrete_results.push(OpResult::Aborted);
                     return OpResult::Aborted;
                 }
             };
+        self.concrete_results.push(OpResult::Matched {
+            requested: s,
+            fills: res.transactions.as_vec().iter().map(|t| (t.maker_order_id, t.quantity)).collect(),
+            remaining: res.remaining_quantity,
+            complete: res.is_complete,
+            filled: res.filled_order_ids.clone(),
+        });
         // ---- C02 accounting
         let txs = res.transactions.as_vec().clone();
         let executed: u128 = txs.iter().map(|t| t.quantity as u128).sum();
@@ -1642,6 +1661,7 @@ impl Interp {
         self.concrete.push(Concrete::Update(u));
         match catch(|| self.level.update_order(u)) {
             Ok(r) => {
+                self.concrete_results.push(OpResult::Updated(r.as_ref().map(|o| o.as_ref().map(|a| **a)).map_err(|e| e.to_string())));
                 if self.hold {
                     if let Ok(Some(a)) = &r {
                         self.held.push(a.clone());
@@ -1650,6 +1670,7 @@ impl Interp {
                 Some(r.map_err(|e| e.to_string()))
             }
             Err(m) => {
+                self.concrete_results.push(OpResult::Aborted);
                 self.violate(Oracle::Panic, format!("update_order({}) panicked: {m}", u));
                 self.dead = true;
                 None
@@ -1810,6 +1831,7 @@ impl Interp {
         let before = self.fingerprint();
         self.facts.reads += 1;
         self.concrete.push(Concrete::Read(k));
+        self.concrete_results.push(OpResult::Read);
         if let Err(m) = perform_read(&self.level, k) {
             self.violate(Oracle::Update, format!("read-only call {:?} failed: {m}", k));
         }
